@@ -265,6 +265,25 @@ fn gen_doc(rng: &mut Rng, profile: Profile) -> GTree {
         let mut kids = decls;
         kids.extend(el.kids.into_iter());
         el.kids = kids;
+        if rng.chance(1, 2) {
+            // inner elements rebind p, q, r among the same three namespaces (a permutation, so
+            // every name stays resolvable): the same prefix means different namespaces in
+            // sibling scopes (seed C20i: a binding remembered past the end of its scope)
+            fn shadow(rng: &mut Rng, t: &mut GTree) {
+                for k in t.kids.iter_mut() {
+                    if let GValue::Element(_) = k.v {
+                        if rng.chance(1, 3) {
+                            let perm = *rng.pick(&[[NS_B, NS_A, NS_C], [NS_A, NS_C, NS_B], [NS_C, NS_B, NS_A], [NS_B, NS_C, NS_A], [NS_C, NS_A, NS_B]]);
+                            for (i, ns) in perm.iter().enumerate().rev() {
+                                k.kids.insert(0, GTree::leaf(GValue::Namespace(2 + i, *ns)));
+                            }
+                        }
+                        shadow(rng, k);
+                    }
+                }
+            }
+            shadow(rng, &mut el);
+        }
     }
     if profile == Profile::ConsOff && rng.chance(1, 2) {
         // an empty text child somewhere at the end of the document element
